@@ -93,6 +93,18 @@ Theorem C20_peach1_no_callback_after_break : forall c cb n,
 Proof. exact peach1_no_callback_after_break. Qed.
 Print Assumptions C20_peach1_no_callback_after_break.
 
+(* CHARACTERISATION (regression lemma, not a finding): the equivalence above
+   depends on the worker recording broken BEFORE it gives its slot back.  In the
+   variant with the two swapped ([exec_swapped], model/C20_Peach.v) this schedule
+   ends with callback 1 entered although callback 0 broke; each runs callback 0 only. *)
+Theorem C20_release_before_record_admits_extra_callback :
+  exists s, exec_swapped (faithful (Some 1)) w_cb 3 init w_sched_swapped = Some s
+    /\ pc s = DDone /\ cancelled s = false /\ panicked s = false
+    /\ calls s 0 = 1 /\ calls s 1 = 1 /\ calls s 2 = 0
+    /\ each_calls w_cb 3 1 = 0.
+Proof. exact release_before_record_admits_extra_callback. Qed.
+Print Assumptions C20_release_before_record_admits_extra_callback.
+
 (* each itself: it runs input i iff i < n and no earlier callback broke or failed *)
 Theorem C20_each_calls_spec : forall cb n i,
   each_calls cb n i = if (i <? n) && nbb cb i then 1 else 0.
